@@ -831,6 +831,13 @@ func gamma_p_derivative_imp(a, x float64) float64 {
     // overflow:
     return math.Inf(1)
    }
+   if f1 < 1e-300 {
+     // Gradual underflow: the prefix, or (for a < 10) the power it is formed
+     // from, is a subnormal number that has lost most of its digits, whereas
+     // the derivative prefix/x may be far inside the normal range; treat it
+     // like an underflow
+     f1 = 0.0
+   }
    if f1 == 0.0 {
      // Underflow in calculation, use logs instead:
      v, _ := math.Lgamma(a)
@@ -844,6 +851,20 @@ func gamma_p_derivative_imp(a, x float64) float64 {
 
 func gamma_p_second_derivative_imp(a, x float64) float64 {
   t := gamma_p_derivative_imp(a, x)
+  if t < 0x1p-1022 && x > 0.0 && x < 1.0 {
+    // The first derivative is subnormal or underflows, t*(a-1-x)/x need not:
+    // use logs instead
+    r := a - 1.0 - x
+    if r == 0.0 {
+      return 0.0
+    }
+    v, _ := math.Lgamma(a)
+    f := math.Exp((a - 2.0)*math.Log(x) - x - v + math.Log(math.Abs(r)))
+    if r < 0.0 {
+      f = -f
+    }
+    return f
+  }
   return (a-1.0)*t/x - t
 }
 
